@@ -158,6 +158,25 @@ Theorem softmax_setters : forall ex, exp_like ex -> forall t0 sets q, 0 <= t0 ->
 Proof. exact softmax_setters_thm. Qed.
 Print Assumptions softmax_setters.
 
+(* MDP::QSoftmaxPolicy, the whole table: every state row is a distribution and equals the per-action
+   queries of THAT state; and each row may be moved by its own constant without changing the table
+   (so a row's result cannot depend on the other rows, e.g. on a table-wide maximum) *)
+Theorem msoftmax_rows : forall ex, exp_like ex -> forall T qm,
+  Forall (fun q => q <> []) qm -> (eqSmall T 0 = true -> Forall separated qm) ->
+  length (msoftmax_policy ex T qm) = length qm /\
+  forall s, (s < length qm)%nat ->
+    length (row (msoftmax_policy ex T qm) s) = length (row qm s) /\
+    is_dist (row (msoftmax_policy ex T qm) s) /\
+    agrees (row (msoftmax_policy ex T qm) s) (msoftmax_prob ex T qm s).
+Proof. exact msoftmax_rows_thm. Qed.
+Print Assumptions msoftmax_rows.
+
+Theorem msoftmax_row_shift : forall ex, exp_like ex -> forall T cs qm,
+  eqSmall T 0 = false -> Forall (fun q => q <> []) qm -> length cs = length qm ->
+  Forall2 veq (msoftmax_policy ex T (shift_rows cs qm)) (msoftmax_policy ex T qm).
+Proof. exact msoftmax_row_shift_thm. Qed.
+Print Assumptions msoftmax_row_shift.
+
 (* ------------------------------------------------------------------ ThompsonSamplingPolicy *)
 (* about the code repaired by fixes/C09-thompson-lowest.patch *)
 
